@@ -61,7 +61,20 @@ def metric_names(rng, cfg):
   return rng.sample(NAMES, rng.randint(2, 6))
 
 
+BROKEN = [
+  'this line comes before any section header\n[s0]\npattern = .*\nretentions = 60:1440\n',
+  '[dup]\npattern = ^a\nretentions = 60:1440\n\n[dup]\npattern = ^b\nretentions = 10:100\n',
+  '[s0]\npattern = (unclosed\nretentions = 60:1440\n',
+  '[s0\npattern = .*\nretentions = 60:1440\n',
+]
+
+
 def gen_schema_op(rng, cfg):
+  r = rng.random()
+  if r < 0.15:
+    # a file the parser cannot read: the reload must fail without touching the schemas
+    # in force, and a later repaired file must be picked up
+    return ['schema', rng.choice(['storage-schemas.conf', 'storage-aggregation.conf']), rng.choice(BROKEN)]
   if rng.random() < 0.6:
     return ['schema', 'storage-schemas.conf', gen_schemas(rng)]
   return ['schema', 'storage-aggregation.conf', gen_aggregation(rng)]
